@@ -88,6 +88,12 @@ fn cases() -> Vec<Case> {
         Case { def: "permtide from=mean to=zero ellps=GRS80", lon: (-180.0, 180.0), lat: (-90.0, 90.0), heights: &[0.0, 100.0], tol_m: 1e-5, angular_out: true },
         Case { def: "adapt from=neuf_deg | adapt to=neuf_deg", lon: (0.1, 0.3), lat: (0.1, 0.9), heights: &[0.0], tol_m: 1e-5, angular_out: true },
         Case { def: "utm zone=32 | helmert x=100 y=-50 | utm zone=33 inv", lon: (4.0, 14.0), lat: (40.0, 70.0), heights: &[0.0], tol_m: 1e-5, angular_out: true },
+        // appended later (ids of the cases above are referenced by known_findings.txt, so new cases go to the end)
+        g("omerc ellps=evrstSS x_0=590476.87 y_0=442857.65 latc=4 lonc=115 k_0=0.99984 alpha=53:18:56.9537", (108.0, 122.0), (-3.0, 12.0), 1e-3),
+        g("omerc ellps=GRS80 latc=-36 lonc=-70 alpha=30 k_0=0.9999", (-76.0, -64.0), (-42.0, -30.0), 1e-3),
+        g("omerc ellps=GRS80 variant latc=47.14439372222 lonc=19.04857177778 alpha=90 gamma_c=90 k_0=0.99993 x_0=650000 y_0=200000", (16.0, 23.0), (45.5, 48.7), 1e-3),
+        g("merc lon_0=-150 lat_ts=-30 x_0=100 y_0=-200 ellps=intl", (-180.0, 180.0), (-80.0, 80.0), 1e-5),
+        g("lcc lat_1=-20 lat_2=-50 lat_0=-35 lon_0=140 ellps=GRS80", (110.0, 170.0), (-70.0, -5.0), 1e-5),
     ]
 }
 
@@ -139,7 +145,7 @@ fn max_roundtrip(ctx: &mut Minimal, c: &Case, n: usize, inv_first: bool) -> Resu
     Ok((worst, evaluated, worst_at))
 }
 
-//@n {"id":"C01.N.roundtrip.lattice","props":["C01"],"tier":"quick","bound":"46 operator definitions (merc, webmerc, tmerc incl. lat_0 != 0 and southern origins, utm zones 1/32/60 N+S, btmerc/butm, lcc 1SP/2SP/N+S, laea polar N+S/equatorial/oblique, somerc, omerc variants A+B, cart on 3 ellipsoids up to 10^7 m, 5 auxiliary latitudes, helmert pipelines incl. exact and 14-parameter, molodensky full+abridged, permtide, a geo:in/out macro pipeline) x a 24x24 lattice (thorough tier: 96x96) over each documented domain x heights; forward-then-inverse and inverse-then-forward","text":"applying the operator forward and then inverse returns the original coordinate to within the stated accuracy (1e-5 m rigorous methods, 1e-3 m btmerc/omerc/molodensky/non-exact helmert/cart at 10^7 m), and the same inverse-then-forward; every lattice point inside the domain is counted; the epoch comes back bit-identical"}
+//@n {"id":"C01.N.roundtrip.lattice","props":["C01"],"tier":"quick","bound":"51 operator definitions (merc, webmerc, tmerc incl. lat_0 != 0 and southern origins, utm zones 1/32/60 N+S, btmerc/butm, lcc 1SP/2SP/N+S, laea polar N+S/equatorial/oblique, somerc, omerc variants A+B, Laborde (alpha only) north and south, alpha=90, cart on 3 ellipsoids up to 10^7 m, 5 auxiliary latitudes, helmert pipelines incl. exact and 14-parameter, molodensky full+abridged, permtide, a geo:in/out macro pipeline) x a 24x24 lattice (thorough tier: 96x96) over each documented domain x heights; forward-then-inverse and inverse-then-forward","text":"applying the operator forward and then inverse returns the original coordinate to within the stated accuracy (1e-5 m rigorous methods, 1e-3 m btmerc/omerc/molodensky/non-exact helmert/cart at 10^7 m), and the same inverse-then-forward; every lattice point inside the domain is counted; the epoch comes back bit-identical"}
 #[test]
 fn verif_native_c01_roundtrip_lattice() {
     let mut ctx = Minimal::default();
